@@ -16,9 +16,9 @@ ID_MENUS = {
 
 MD_MENUS = {
     'none': lambda ids, ax: None,
-    'text': lambda ids, ax: [{'env': 'e ' + i, 'barcode/seq': 'ACGT'[k % 4:] + 'T'} for k, i in enumerate(ids)],
+    'text': lambda ids, ax: [{'env': 'e ' + i, 'barcode/seq': 'ACGT'[k % 4:] + 'T', 'flow mL/min/m2': ' padded ' + i} for k, i in enumerate(ids)],
     'numeric': lambda ids, ax: [{'depth': 1.5 * k, 'count': k + 1, 'flag': bool(k % 2)} for k, i in enumerate(ids)],
-    'taxonomy': lambda ids, ax: [{'taxonomy': (['k__A', 'p__' + i] if k != 1 else ['k__only']), 'collapsed_ids': ['x' + i, 'y']}
+    'taxonomy': lambda ids, ax: [{'taxonomy': (['k__A', ' p__' + i] if k != 1 else ['k__only ']), 'collapsed_ids': ['x' + i, ' ', 'y']}
                                  for k, i in enumerate(ids)],
     'taxonomy-with-null': lambda ids, ax: [{'taxonomy': (None if k == 0 else ['k__A', 'p__' + i])} for k, i in enumerate(ids)],
     'non-ascii-text': lambda ids, ax: [{'site': 'Zürich ' + i} for i in ids],
@@ -77,16 +77,23 @@ def h_roundtrip(nr, nc, idk, mdk, zeros):
     elif via == 'load_table:handle':
         t2, e = call(lambda: P.load_table(store))
     else:
-        import contextlib
-
-        @contextlib.contextmanager
-        def fake_open(fp, permission='r'):
-            yield store
-        P.biom_open = fake_open
-        t2, e = call(lambda: P.load_table('some/table.biom'))
+        # a path on the modelled file system (checks/fsmodel.py): biom_open sniffs the content and picks the HDF5 opener
+        from checks import fsmodel
+        U = env.module('biom.util')
+        name = pick(['some/table.biom', 'table.biom.gz', 'table.txt'], 'file-name')
+        fs = fsmodel.FS()
+        fs.put(name, 'hdf5', store)
+        fsmodel.install(U, fs, b.h5)
+        P.biom_open = U.biom_open
+        t2, e = call(lambda: P.load_table(name))
     if e is not None:
         fail('read:raised', f"{type(e).__name__}: {e}"[:160], **sig)
         return
+    if via != 'load_table:path':
+        # an open handle given by the caller stays the caller's: it can be read again afterwards
+        _, e = call(lambda: b.Table.from_hdf5(store).shape)
+        if e is not None:
+            fail('read:handle-unusable-afterwards', f"{type(e).__name__}: {e}"[:160], **sig)
     got = observe(t2)
     same_table('roundtrip', got, a, type_=True, **sig)
     coherent('roundtrip:coherent', t2, **sig)
